@@ -131,6 +131,34 @@ def run(ctx):
     pushes = [field_path(c["args"][0]) for c in hir.find_calls(tc["body"], "push_str")]
     ok = ok and pushes[0] == ("brackets", "0") and pushes[-1] == ("brackets", "1")
     ctx.ob("M-TYPST", "template_compound: three arity layouts, each emitting the connecter (unless set) and all components between the brackets", bool(ok), "")
+    # order: the rendered components reach the join in the order the accessor yields them (images: with the placeholder at its index).
+    # Nothing may reorder / drop them on the way: the collected vector is immutable and only asked for its length before it is consumed,
+    # and format_term hands over accessor().into_iter().map(render) with no reordering adapter (seed c16-d sorted the strings)
+    ORDER_NEUTRAL = {"len", "into_iter", "iter", "is_empty"}
+    used = []
+    mut_bind = False
+    for n in hir.walk(tc["body"]):
+        if n.get("k") == "MethodCall" and field_path(n["recv"]) == ("strings",):
+            used.append(n["method"])
+    for st_ in strip(tc["body"])["stmts"]:
+        if st_["k"] == "Let" and st_["pat"]["k"] == "Binding" and st_["pat"]["name"] == "strings":
+            mut_bind = "Mut" in (st_["pat"].get("mode") or "").split(",")[-1]
+            init = strip(st_["init"])
+            ok_init = init["k"] == "MethodCall" and init["method"] == "collect" and field_path(init["recv"]) == ("components",)
+            ctx.ob("M-TYPST", "template_compound: strings = components.collect() (nothing in between)", ok_init, "")
+    ctx.ob("M-TYPST", "template_compound: the collected component strings are neither reordered nor mutated", set(used) <= ORDER_NEUTRAL and not mut_bind and "into_iter" in used,
+           "methods called on the collected vector: %s%s" % (sorted(set(used)), "; the binding is mutable" if mut_bind else ""))
+    ft_ = f.hir_fn("format_term", module="typst_formatter::formatter_enum")
+    calls_tc = hir.find_calls(ft_["body"], "template_compound")
+    ok_chain = False
+    chain = []
+    if len(calls_tc) == 1:
+        e = strip(calls_tc[0]["args"][3])
+        while e["k"] == "MethodCall":
+            chain.append(e["method"])
+            e = strip(e["recv"])
+        ok_chain = chain[:-1] == ["map", "into_iter"] and chain[-1:] == ["get_components_including_placeholder"] and field_path(e) == ("term",)
+    ctx.ob("M-TYPST", "format_term: components = term.get_components_including_placeholder().into_iter().map(render)", ok_chain, "adapter chain %s" % chain[::-1])
     # per-role distinctness of the constants
     ctx.rule("T-DISTINCT", "Typst constants of one role are pairwise distinct (prefixes, connecters, copulas, punctuations, non-eternal stamps, term bracket pairs)")
     defs = {}
@@ -229,6 +257,9 @@ def run(ctx):
     ctx.ob("F-POST", "post_process_whitespace: trims, then drops a char only when it and its predecessor are both whitespace", bool(ok), "")
     asg = [n for n in hir.walk(pw["body"]) if n.get("k") == "Assign"]
     ctx.ob("F-POST", "post_process_whitespace writes the result back (*s = result)", len(asg) == 1 and field_path(asg[0]["r"]) == ("result",), "")
+    # component order is preserved end to end (formatter, templates, parsers, fold, accessors)
+    import maps as _maps
+    _maps.rule_O_ORDER(ctx)
     ctx.undecided = ["injectivity of rendering over all pairs of values (only per-role/per-category distinctness and the layout rule are decided)",
                      "rendering equality up to the order of unordered components (depends on set iteration order)"]
     ctx.assumptions = ["ToDebug on the atom name yields a quoted, escaped string", "terms are finite trees (the formatter recurses on components)"]
